@@ -1,5 +1,6 @@
 import Nstd.Avl.Props
 import Nstd.Avl.LemmasHeap
+import Nstd.Avl.LemmasHeapClimb
 /-
   Property C01 — the tie of the rotation code, by translation instead of by test.
 
@@ -162,6 +163,173 @@ theorem rebalOk_upd (i : Nat) (k v : Int) (hh : Nat) (s : Int) (l r : Tree) (hl 
       intro e1 e2; subst e2
       rw [avl_node] at hr
       simp only [Tree.height] at hr; omega
+
+
+/-! ### second layer: `find`, the upward loop of the private insert -/
+
+/-- **`Map::find`** of the current Map.hpp (the `for(Item* item = root; item; )` loop with its `continue`s, translated
+    with a counter of the key comparisons in evaluation order) returns the item at the in-order position the model's
+    `Tree.findIdx` gives (or `_end`), after exactly `Tree.findCmps` comparisons; `height + 1` units of fuel suffice. -/
+theorem gen_find_map_eq_model (h : Heap) (t : Tree) (k : Int) (c fuel : Nat) (hr : Repr h h.root 0 t)
+    (hf : t.height < fuel) :
+    Map.find fuel h c k =
+      some ((match (Tree.findIdx k t).bind (fun j => (ids t)[j]?) with | some i => i + 1 | none => h.endItem),
+        c + Tree.findCmps k t) := by
+  unfold Map.find
+  simp only []
+  rw [map_find_loop h k t _ 0 c fuel hr hf, findPtr_spec]
+  rfl
+
+/-- **`MultiMap::find`** of the current MultiMap.hpp (the repaired lower-bound loop with its `result` variable) returns
+    the item at the position the model's `Tree.findMIdx` gives — the FIRST of the equal keys — or `_end`, after exactly
+    `Tree.findMCmps` comparisons.  (The seeded early exit C01-6 breaks this obligation.) -/
+theorem gen_find_multi_eq_model (h : Heap) (t : Tree) (k : Int) (c fuel : Nat) (hr : Repr h h.root 0 t)
+    (hf : t.height < fuel) :
+    Multi.find fuel h c k =
+      some ((match (Tree.findMIdx k t).bind (fun j => (ids t)[j]?) with | some i => i + 1 | none => h.endItem),
+        c + Tree.findMCmps k t) := by
+  unfold Multi.find
+  simp only []
+  have := multi_find_loop h k t _ 0 c fuel none hr hf
+  simp only [encPtr] at this
+  rw [this, findMPtr_spec]
+  cases (Tree.findMIdx k t).bind (fun j => (ids t)[j]?) <;> simp [encPtr]
+
+theorem multi_insertLoop : ∀ (fuel : Nat) (h : Heap) (p old : Nat),
+    Multi.insertRebalance_loop fuel h p old = Map.insertRebalance_loop fuel h p old := by
+  intro fuel
+  induction fuel with
+  | zero => intro h p old; rw [Multi.insertRebalance_loop, Map.insertRebalance_loop]
+  | succ f ih =>
+    intro h p old
+    rw [Multi.insertRebalance_loop, Map.insertRebalance_loop]
+    simp only [multi_upd, multi_rebal, ih]
+
+/-- the translated upward loop of the private insert of one header -/
+def insertLoop (multi : Bool) : Nat → Heap → Nat → Nat → Option Heap :=
+  if multi then Multi.insertRebalance_loop else Map.insertRebalance_loop
+
+/-- the descent of `Map::insert` for key `k` ends in the hole of the context -/
+def Ctx.PathMap (k : Int) : Ctx → Prop
+  | .top => True
+  | .left _ k' _ _ _ _ up => k < k' ∧ Ctx.PathMap k up
+  | .right _ k' _ _ _ _ up => k > k' ∧ Ctx.PathMap k up
+
+/-- the descent of `MultiMap::insert` -/
+def Ctx.PathMulti (k : Int) : Ctx → Prop
+  | .top => True
+  | .left _ k' _ _ _ _ up => k < k' ∧ Ctx.PathMulti k up
+  | .right _ k' _ _ _ _ up => ¬ k < k' ∧ Ctx.PathMulti k up
+
+theorem ins_plug (id : Nat) (k v : Int) : ∀ (ctx : Ctx) (sub : Tree), ctx.PathMap k →
+    Tree.ins id k v (ctx.plug sub) = ctx.climb (Tree.ins id k v sub) := by
+  intro ctx
+  induction ctx with
+  | top => intro sub _; rfl
+  | left i k' v' hh s r up ih =>
+    intro sub hp
+    simp only [Ctx.plug, Ctx.climb]
+    rw [ih _ hp.2]
+    congr 1
+    have h1 : ¬ k > k' := by have := hp.1; omega
+    simp only [Tree.ins, h1, hp.1, if_false, if_true]
+  | right i k' v' hh s l up ih =>
+    intro sub hp
+    simp only [Ctx.plug, Ctx.climb]
+    rw [ih _ hp.2]
+    congr 1
+    simp only [Tree.ins, hp.1, if_true]
+
+theorem insM_plug (id : Nat) (k v : Int) : ∀ (ctx : Ctx) (sub : Tree), ctx.PathMulti k →
+    Tree.insM id k v (ctx.plug sub) = ctx.climb (Tree.insM id k v sub) := by
+  intro ctx
+  induction ctx with
+  | top => intro sub _; rfl
+  | left i k' v' hh s r up ih =>
+    intro sub hp
+    simp only [Ctx.plug, Ctx.climb]
+    rw [ih _ hp.2]
+    congr 1
+    simp only [Tree.insM, hp.1, if_true]
+  | right i k' v' hh s l up ih =>
+    intro sub hp
+    simp only [Ctx.plug, Ctx.climb]
+    rw [ih _ hp.2]
+    congr 1
+    simp only [Tree.insM, hp.1, if_false]
+
+theorem avl_plug : ∀ (ctx : Ctx) (t : Tree), Avl (ctx.plug t) → Avl t := by
+  intro ctx
+  induction ctx with
+  | top => intro t h; exact h
+  | left i k v hh s r up ih => intro t h; have := ih _ h; rw [avl_node] at this; exact this.1
+  | right i k v hh s l up ih => intro t h; have := ih _ h; rw [avl_node] at this; exact this.2.1
+
+/-- `ClimbOk` holds on the way back from an insertion into (or a removal from) an AVL tree: the subtree that comes
+    back is AVL and at most one level off the one it replaces -/
+theorem climbOk_of_avl : ∀ (ctx : Ctx) (orig : Tree) (p : Tree × Bool), Avl (ctx.plug orig) → Avl p.1 →
+    ((p.1.height : Int) - orig.height ≤ 1 ∧ -1 ≤ (p.1.height : Int) - orig.height) →
+    (p.2 = false → p.1.height = orig.height) → ClimbOk ctx p := by
+  intro ctx
+  induction ctx with
+  | top => intro _ _ _ _ _ _; trivial
+  | left i k v hh s r up ih =>
+    intro orig p hA hp hd hc
+    have hN := avl_plug up _ hA
+    have hN' := hN
+    rw [avl_node] at hN'
+    obtain ⟨g1, g2, g3, g4, g5⟩ := goL_spec i k v hh s orig r p hN hp hd hc
+    refine ⟨fun _ => rebalOk_upd i k v hh s p.1 r hp hN'.2.1, ?_⟩
+    refine ih (node i k v hh s orig r) _ hA g1 ?_ ?_
+    · simp only [Tree.height]; omega
+    · intro e; simp only [Tree.height]; have := g3 e; omega
+  | right i k v hh s l up ih =>
+    intro orig p hA hp hd hc
+    have hN := avl_plug up _ hA
+    have hN' := hN
+    rw [avl_node] at hN'
+    obtain ⟨g1, g2, g3, g4, g5⟩ := goR_spec i k v hh s l orig p hN hp hd hc
+    refine ⟨fun _ => rebalOk_upd i k v hh s l p.1 hN'.1 hp, ?_⟩
+    refine ih (node i k v hh s l orig) _ hA g1 ?_ ?_
+    · simp only [Tree.height]; omega
+    · intro e; simp only [Tree.height]; have := g3 e; omega
+
+/-- **The upward loop of the private insert** of the current headers is the model's way back to the root: started at
+    the item under which the subtree `sub` was just linked (`ctx` = the path to that cell, held by the heap), it leaves
+    a heap that holds `(ctx.climb (sub, true)).1` — `goL` / `goR` / `fixup` applied along the path, including the early
+    exit `oldHeight == parent->height` — and `ctx.depth` units of fuel suffice. -/
+theorem gen_insert_loop_eq_climb (multi : Bool) (ctx : Ctx) (h : Heap) (sub : Tree) (fuel old : Nat)
+    (hn : ctx ≠ .top) (hc : ReprCtx h ctx) (hs : Repr h (h.get ctx.cell) ctx.par sub)
+    (hnd : (ids sub ++ ctx.ids).Nodup) (hok : ClimbOk ctx (sub, true)) (hf : ctx.depth ≤ fuel) :
+    ∃ h', insertLoop multi fuel h ctx.par old = some h' ∧ Repr h' h'.root 0 (ctx.climb (sub, true)).1 ∧
+      h'.key = h.key ∧ h'.value = h.value := by
+  have := insertRebalance_loop_eq ctx h sub fuel old hn hc hs hnd hok hf
+  cases multi with
+  | false => exact this
+  | true => simp only [insertLoop, if_true, multi_insertLoop]; exact this
+
+/-- **`Map::insert`, after the new item is linked**: if the tree was AVL and the descent for `k` ended in the hole of
+    `ctx`, the loop leaves exactly the tree of the model's `ins`. -/
+theorem gen_insert_loop_map_eq_model (ctx : Ctx) (h : Heap) (id : Nat) (k v : Int) (fuel old : Nat)
+    (hn : ctx ≠ .top) (hc : ReprCtx h ctx) (hs : Repr h (h.get ctx.cell) ctx.par (node id k v 1 0 nil nil))
+    (hnd : (id :: ctx.ids).Nodup) (hA : Avl (ctx.plug nil)) (hp : ctx.PathMap k) (hf : ctx.depth ≤ fuel) :
+    ∃ h', insertLoop false fuel h ctx.par old = some h' ∧ Repr h' h'.root 0 (Tree.ins id k v (ctx.plug nil)).1 ∧
+      h'.key = h.key ∧ h'.value = h.value := by
+  have hok : ClimbOk ctx (node id k v 1 0 nil nil, true) :=
+    climbOk_of_avl ctx nil _ hA (by rw [avl_node]; simp [Tree.height]) (by simp [Tree.height]) (by simp)
+  rw [ins_plug id k v ctx nil hp]
+  exact gen_insert_loop_eq_climb false ctx h _ fuel old hn hc hs (by simpa [ids] using hnd) hok hf
+
+/-- **`MultiMap::insert`, after the new item is linked** — the same for the MultiMap.hpp copy of the loop and `insM`. -/
+theorem gen_insert_loop_multi_eq_model (ctx : Ctx) (h : Heap) (id : Nat) (k v : Int) (fuel old : Nat)
+    (hn : ctx ≠ .top) (hc : ReprCtx h ctx) (hs : Repr h (h.get ctx.cell) ctx.par (node id k v 1 0 nil nil))
+    (hnd : (id :: ctx.ids).Nodup) (hA : Avl (ctx.plug nil)) (hp : ctx.PathMulti k) (hf : ctx.depth ≤ fuel) :
+    ∃ h', insertLoop true fuel h ctx.par old = some h' ∧ Repr h' h'.root 0 (Tree.insM id k v (ctx.plug nil)).1 ∧
+      h'.key = h.key ∧ h'.value = h.value := by
+  have hok : ClimbOk ctx (node id k v 1 0 nil nil, true) :=
+    climbOk_of_avl ctx nil _ hA (by rw [avl_node]; simp [Tree.height]) (by simp [Tree.height]) (by simp)
+  rw [insM_plug id k v ctx nil hp]
+  exact gen_insert_loop_eq_climb true ctx h _ fuel old hn hc hs (by simpa [ids] using hnd) hok hf
 
 /-! ### non-vacuity: a concrete heap -/
 
